@@ -42,18 +42,30 @@ def run(ctx):
         env = {"GORACE": "log_path=%s halt_on_error=0 exitcode=0" % racelog}
         tp = ctx.path("co", "iso.ndjson")
         stats = ctx.driver_json(["coalesce-iso", "--behaviours", bp, "--out", tp, "--seed", ctx.seed, "--pools", 300 if q else 8000,
-                                 "--repo", core.REPO, "--stress", 20 if q else 400], race=True, env=env, timeout=3000)["stats"]
+                                 "--repo", core.REPO], race=True, env=env, timeout=3000)["stats"]
+        # concurrent rounds in a process of their own: on concurrent map access the Go runtime ends the
+        # process ("fatal error: concurrent map ..."), which is an observation of the race, not a dead driver
+        sp = ctx.run_driver(["coalesce-iso", "--only-stress", "--out", ctx.path("co", "stress.ndjson"), "--seed", ctx.seed, "--repo", core.REPO,
+                             "--stress", 20 if q else 400], race=True, env=env, timeout=3000, check=False)
+        runtime_race = None
+        if sp.returncode != 0:
+            if "fatal error: concurrent map" not in sp.stderr:
+                raise core.Broken("driver coalesce-iso --only-stress failed (exit %d): %s" % (sp.returncode, sp.stderr[-3000:]))
+            runtime_race = sp.stderr[sp.stderr.index("fatal error: concurrent map"):][:3000]
+        else:
+            stats.update({k: v for k, v in json.loads([l for l in sp.stdout.splitlines() if l.startswith("{")][-1])["stats"].items()
+                          if k == "stress_rounds"})
         ctx.log("real code: %s" % stats)
         f, nrec = core.judge_traces(ctx, "coalesce", "CoalesceTrace", TRACE_CFG, tp, xss="256m", timeout=3000)
         flags += f
         files.append(tp)
         races = [x for x in glob.glob(racelog + "*") if "DATA RACE" in open(x, errors="replace").read()]
-        if races:
+        if races or runtime_race:
             rp = ctx.path("co", "race.ndjson")
             open(rp, "w").write(json.dumps({"k": "reset", "trace": 9999999}) + "\n" + json.dumps({"k": "race", "trace": 9999999}) + "\n")
             f2, _ = core.judge_traces(ctx, "coalesce", "CoalesceTrace", TRACE_CFG, rp, parts=1)
             for x in f2:
-                x["race_report"] = open(races[0], errors="replace").read()[:3000]
+                x["race_report"] = open(races[0], errors="replace").read()[:3000] if races else runtime_race
             flags += f2
         # C15's "never panics" clause is also judged on the C09 event generator's output
         tp2 = ctx.path("co", "events.ndjson")
@@ -64,7 +76,7 @@ def run(ctx):
         files.append(tp2)
         stats.update({"events_" + k: v for k, v in s2.items()})
         nontrivial = (stats.get("pools", 0), "pools of message groups (golden inputs, generated groups, arbitrary text) driven through an operation sequence with at least one repeated Coalesce or a Resolve")
-        extra = {"states": ctx.states, "transitions": ctx.transitions, "race_reports": len(races)}
+        extra = {"states": ctx.states, "transitions": ctx.transitions, "race_reports": len(races) + (1 if runtime_race else 0)}
 
     samples = []
     with open(files[0]) as fh:
